@@ -21,6 +21,8 @@ FUNCS = [
     ("eventEmit", "framework/event.py", "EventChannel", "emit"),
     ("lifecycleSetState", "framework/lifecycle.py", "LifeCycleManager", "set_state"),
     ("lifecycleValidNext", "framework/lifecycle.py", "LifeCycleState", "valid_next_state"),
+    ("constraintCheck", "framework/lifecycle.py", "ConstraintMaker", "check_valid_state"),
+    ("constraintWrapped", "framework/lifecycle.py", "ConstraintMaker", "constrain_normal_method._wrapped"),
     ("artifactLoad", "framework/artifact/artifact.py", "Artifact", "load"),
     ("artifactWrite", "framework/artifact/artifact.py", "Artifact", "write"),
     ("artifactRemove", "framework/artifact/artifact.py", "Artifact", "remove"),
@@ -232,9 +234,19 @@ def _find(tree, cls, fn):
                 break
         else:
             raise SrcError(f"class {cls} not found")
-    for n in scope:
-        if isinstance(n, (ast.FunctionDef,)) and n.name == fn:
-            return n
+    # `outer.inner`: a function defined inside another one (a closure: its free variables are locals of the translation)
+    parts = fn.split(".")
+    for k, part in enumerate(parts):
+        found = None
+        for n in scope:
+            if isinstance(n, (ast.FunctionDef,)) and n.name == part:
+                found = n
+                break
+        if found is None:
+            raise SrcError(f"function {cls + '.' if cls else ''}{fn} not found")
+        if k == len(parts) - 1:
+            return found
+        scope = found.body
     raise SrcError(f"function {cls + '.' if cls else ''}{fn} not found")
 
 
@@ -247,6 +259,9 @@ def func(rel, cls, fn) -> str:
     f = _find(tree, cls, fn)
     global _LOCALS
     _LOCALS = _bound_names(f)
+    if "." in fn:      # a closure: what the enclosing functions bind is in scope too
+        outer = _find(tree, cls, fn.rsplit(".", 1)[0])
+        _LOCALS |= _bound_names(outer)
     a = f.args
     params = [x.arg for x in a.posonlyargs + a.args]
     if a.vararg:
